@@ -106,6 +106,7 @@ fn stress(ctx: &Ctx, out: &mut Outcome, run_seed: u64, r: &mut Rng) {
         link_down: vec![LinkCfg::clean()],
         shuffle_phases: false,
         skip_send_pct: 0,
+        library_default: false,
     };
     let mut c = RenetClient::new(cfg.connection_config());
     c.set_connected();
